@@ -26,6 +26,7 @@ import sqlite3
 import stat
 import tempfile
 
+from harness import c05_windows as cw
 from harness import e3
 
 RUNNING, SUCCEEDED, CHECKING = 22, 23, 25
@@ -335,10 +336,33 @@ def _clone(snap: str, dest: str) -> None:
             sk.close()
 
 
-def reference(case: dict, snap: str, project: e3.Project) -> e3.BuildResult:
+def reference(case: dict, snap: str, project: e3.Project, removals: list | None = None) -> e3.BuildResult:
+    """The uninterrupted build; ``removals`` collects one entry per file-system removal of its
+    cleanup pass (``finalize._try_remove``): the removal crash points."""
     with tempfile.TemporaryDirectory(prefix="c05-") as tmp:
         _clone(snap, tmp)
-        return e3.build(tmp, project.program, env=dict(project.env), **_last_kw(case))
+        with cw.count_removals(removals if removals is not None else []):
+            return e3.build(tmp, project.program, env=dict(project.env), **_last_kw(case))
+
+
+CLEANUP_SITES = ("revert_optional_steps", "_revert_optional_steps", "Builder.finalize", "cleanup",
+                 "Scheduler.build_completed") + tuple(cw.REPORT_SITES)
+
+
+def cleanup_points(ref: e3.BuildResult, nremovals: int, max_removals: int = 8) -> list:
+    """Directed points for the end-of-build transactions (report_unbuilt and its helpers,
+    revert_optional_steps, the delete_detached transaction of Builder.finalize, build_completed):
+    before and after each, and before each of the first ``max_removals`` removals of
+    remove_deletable_files."""
+    pts = []
+    for k, (site, _wrote) in enumerate(ref.commit_points, start=1):
+        if site in cw.REPORT_SITES:
+            pts.append({"kind": "commit", "k": k, "when": "after"})      # read-only: one point each
+        elif site in CLEANUP_SITES:
+            pts.append({"kind": "commit", "k": k, "when": "before"})
+            pts.append({"kind": "commit", "k": k, "when": "after"})
+    pts += [{"kind": "removal", "k": k} for k in range(1, min(nremovals, max_removals) + 1)]
+    return pts
 
 
 def points_of(ref: e3.BuildResult) -> list:
@@ -514,7 +538,8 @@ def sample_points(ref: e3.BuildResult, rng: random.Random, n: int, startup: bool
         is done, its newly declared static file is still UNCONFIRMED (stray UNCONFIRMED row);
       * after a dispatch commit: a step is RUNNING/CHECKING, its command has not started;
       * before a writing completion commit: the command ran to the end, nothing of it is recorded;
-      * after the first cleanup commits (revert_optional_steps, Builder.finalize)."""
+      * after the first cleanup commits (revert_optional_steps, Builder.finalize);
+      * after a writing transaction of an RPC handler of a running command."""
     cps = ref.commit_points
     picks = []
 
@@ -540,6 +565,11 @@ def sample_points(ref: e3.BuildResult, rng: random.Random, n: int, startup: bool
         cand = [k for k in range(1, len(cps) + 1) if cps[k - 1][0] == site and cps[k - 1][1]]
         if cand:
             add({"kind": "commit", "k": cand[0], "when": "after"})
+    # a transaction of an RPC handler (define_step / declare_static / amend_step / ... of a running
+    # command): after it the declaring step is still RUNNING and part of what it declared is stored
+    cand = [k for k in range(1, len(cps) + 1) if cps[k - 1][0].startswith("DirectorHandler.") and cps[k - 1][1]]
+    if cand:
+        add({"kind": "commit", "k": rng.choice(cand), "when": "after"})
     stages = [{"kind": "stage", "k": k} for k in range(1, len(ref.stage_points) + 1)]
     for p in rng.sample(stages, min(2, len(stages))):
         add(p)
@@ -647,6 +677,10 @@ def _real_reset(path: str, hmap: dict):
 def _window(info: dict) -> str:
     if info["kind"] == "stage":
         return "stage-of-running-step"
+    if info["kind"] == "removal":
+        return "during-remove_deletable_files"
+    if info.get("watch"):
+        return f"watch-phase:{info['when']}-commit-of-{info['site']}"
     return f"{info['when']}-commit-of-{info['site']}"
 
 
@@ -689,7 +723,7 @@ def classify(info: dict, ref: e3.BuildResult, db: dict, rr: e3.BuildResult, rr2:
     # -- a kill inside the startup sequence: no command had run, so the restart has the whole build
     #    before it and must run every command the uninterrupted build ran (the observable form of
     #    "the evidence of a change is only discarded together with marking the affected steps") ----
-    if info["kind"] == "commit" and info["k"] <= startup_commits(ref):
+    if info["kind"] == "commit" and not info.get("watch") and info["k"] <= startup_commits(ref):
         lost = sorted(set(ref.executed()) - set(rr.executed()))
         if lost:
             add("startup-change-lost", f"killed inside the startup sequence; the uninterrupted build executed {lost} "
@@ -705,6 +739,10 @@ def classify(info: dict, ref: e3.BuildResult, db: dict, rr: e3.BuildResult, rr2:
                 sig = SIG_D6B
             elif info["kind"] == "commit" and info["when"] == "before" and info["site"] == "Builder.finalize":
                 sig = SIG_D6B
+            elif info["kind"] == "removal":
+                # after both cleanup commits, the queue partly worked off: a path the graph no longer
+                # knows is D6, an output of a reverted optional step (row PLANNED) is D6b
+                sig = SIG_D6B if "file:" + d["key"] in rr.nodes() else SIG_D6
             still = None if rr2 is None else d["key"] in rr2.files
             add("orphan", f"{d['key']} is on disk after the restarted build but not after the uninterrupted one "
                           f"(still there after a second restart: {still}; known to the graph: "
@@ -716,10 +754,17 @@ def classify(info: dict, ref: e3.BuildResult, db: dict, rr: e3.BuildResult, rr2:
         elif d["field"] == "dirs":
             orphan_sigs = {f["signature"] for f in fails if f["kind"] == "orphan"}
             sig = None
-            if d["a"] and not d["b"] and len(orphan_sigs) == 1 and all(
+            if d["a"] and not d["b"] and orphan_sigs and all(
                     any(k.startswith(x) for k in rr.files if k not in ref.files) for x in d["a"]):
-                # the directories of the orphaned files: same defect, same signature
-                sig = next(iter(orphan_sigs))
+                # the directories of the orphaned files: same defect, same signature (orphans of both
+                # windows below them, possible when the removal itself is interrupted: the root cause
+                # is the one of D6, the lost queue)
+                sig = next(iter(orphan_sigs)) if len(orphan_sigs) == 1 else (
+                    SIG_D6 if orphan_sigs <= {SIG_D6, SIG_D6B} else None)
+            elif info["kind"] == "removal" and d["a"] and not d["b"] and not orphan_sigs:
+                # killed after the last file and before an rmdir of remove_deletable_files: the
+                # emptied directories the queue still held stay (D6: the queue is lost)
+                sig = SIG_D6
             add("directories-differ", f"only after restart: {d['a']}; only uninterrupted: {d['b']}", sig)
         elif d["field"] == "graph":
             add("graph-differs", f"node {d['key']}: restarted {d['a']} uninterrupted {d['b']}")
@@ -756,7 +801,10 @@ def check_point(case: dict, snap: str, project: e3.Project, ref: e3.BuildResult,
     with tempfile.TemporaryDirectory(prefix="c05-") as tmp:
         _clone(snap, tmp)
         kw = _last_kw(case)
-        out = e3.build_forked(tmp, project.program, crash=point, env=dict(project.env), **kw)
+        if point["kind"] == "removal":
+            out = cw.build_forked_removal(tmp, project.program, point["k"], env=dict(project.env), **kw)
+        else:
+            out = e3.build_forked(tmp, project.program, crash=point, env=dict(project.env), **kw)
         if not out.crashed:
             # the point was not reached (a k beyond what this run produced): nothing to check
             return {"point": point, "crashed": False, "fails": [], "info": None, "db": {}}
@@ -809,11 +857,16 @@ def startup_state_fails(info: dict, probe: dict, su: dict) -> list:
 def run_job(job: dict) -> dict:
     """Pool entry: one case; ``points``: explicit list, else ``sample``: n seeded points, else all."""
     case = job["case"]
+    if job.get("watch") or any(p.get("watch") for p in (job.get("points") or []) if isinstance(p, dict)):
+        return run_watch_job(job)
     with tempfile.TemporaryDirectory(prefix="c05s-") as snap:
         project = snapshot(case, snap)
-        ref = reference(case, snap, project)
-        pts = points_of(ref)
-        if job.get("points") is not None:
+        removals: list = []
+        ref = reference(case, snap, project, removals)
+        pts = points_of(ref) + [{"kind": "removal", "k": k} for k in range(1, len(removals) + 1)]
+        if job.get("points") == "cleanup":
+            pts = cleanup_points(ref, len(removals))
+        elif job.get("points") is not None:
             pts = job["points"]
         elif job.get("sample") is not None:
             rng = random.Random(f"c05-pts-{case['name']}-{case['seed']}-{job.get('seed', 0)}")
@@ -826,8 +879,85 @@ def run_job(job: dict) -> dict:
         results = [check_point(case, snap, project, ref, pt, su) for pt in pts]
     return {"case": case, "ref": {"rc": ref.returncode, "error": ref.error, "commits": len(ref.commit_points),
                                   "stages": len(ref.stage_points), "executed": ref.executed(),
-                                  "startup_commits": startup_commits(ref),
+                                  "startup_commits": startup_commits(ref), "removals": len(removals),
                                   "sites": sorted({s for s, _ in ref.commit_points})},
+            "results": results}
+
+
+# Watch phase -------------------------------------------------------------------------------------
+
+WATCH_FAMILIES = ["chain", "diamond", "subplan", "amend", "optional", "drop", "failing"]
+
+
+def watch_points(points: list, rng: random.Random, n: int | None) -> list:
+    """Crash points of the part of a watching director's life after its first build phase:
+    ``points`` = its commit points [site, wrote] in order.  All of them (``n`` None), or: every
+    point of the watcher and of start_build_phase (the transactions no non-watch build has), then a
+    seeded sample of the rebuild."""
+    allp = []
+    for k, (_site, wrote) in enumerate(points, start=1):
+        if wrote:
+            allp.append({"kind": "commit", "k": k, "when": "before", "watch": True})
+        allp.append({"kind": "commit", "k": k, "when": "after", "watch": True})
+    if n is None:
+        return allp
+    own = [p for p in allp if cw.site_kind({"kind": "commit", "site": points[p["k"] - 1][0]}) in
+           ("watch-phase", "rpc")]
+    rest = [p for p in allp if p not in own]
+    rng.shuffle(rest)
+    return own[:max(n, 6)] + rest[:max(n - len(own), 2)]
+
+
+def run_watch_job(job: dict) -> dict:
+    """Pool entry: the last phase of the case happens under a WATCHING director: the director has
+    completed a build phase and idles; the edits of the last phase are made on the live file system;
+    the watcher records them; a rebuild starts.  The director is killed at a commit point of that
+    part of its life; then a plain restart, compared with the uninterrupted plain build."""
+    case = job["case"]
+    with tempfile.TemporaryDirectory(prefix="c05s-") as snap, tempfile.TemporaryDirectory(prefix="c05v-") as snapw:
+        project = snapshot(case, snap)
+        ref = reference(case, snap, project)
+        edits = case["history"][-1].get("edits", [])
+        case_w = dict(case, history=case["history"][:-1] + [{"edits": []}])
+        project_w = _prefix(case_w, snapw)
+        kw = {k: v for k, v in _last_kw(case).items() if k in ("njob", "resources", "clean", "keep_going")}
+        with tempfile.TemporaryDirectory(prefix="c05-") as tmp:
+            _clone(snapw, tmp)
+            full = cw.watch_forked(tmp, project_w.to_json(), edits, None, **kw)
+        results = []
+        if full["points"] is None:
+            results.append({"point": {"watch": True}, "crashed": False, "fails": [], "info": None, "db": {},
+                            "watch_error": full["error"]})
+            pts = []
+        elif job.get("points") is not None:
+            pts = job["points"]
+        else:
+            rng = random.Random(f"c05-wpts-{case['name']}-{case['seed']}-{job.get('seed', 0)}")
+            pts = watch_points(full["points"], rng, job.get("sample"))
+        for pt in pts:
+            with tempfile.TemporaryDirectory(prefix="c05-") as tmp:
+                _clone(snapw, tmp)
+                out = cw.watch_forked(tmp, project_w.to_json(), edits, pt, **kw)
+                if not out["crashed"]:
+                    results.append({"point": pt, "crashed": False, "fails": [], "info": None, "db": {}})
+                    continue
+                db = inspect_db(tmp)
+                rr = e3.build(tmp, project.program, env=dict(project.env), **_last_kw(case))
+                fails = classify(out["info"], ref, db, rr, None)
+                if any(f["kind"] == "orphan" for f in fails):
+                    rr2 = e3.build(tmp, project.program, env=dict(project.env), **_last_kw(case))
+                    fails = classify(out["info"], ref, db, rr, rr2)
+                results.append({"point": pt, "crashed": True, "info": out["info"], "fails": fails,
+                                "db": {k: db.get(k) for k in ("running", "checking", "unconfirmed", "nodes", "dump0",
+                                                              "dump2", "strict_open", "reset_error", "exists")},
+                                "restart_executed": rr.executed(), "restart_rc": rr.returncode})
+    return {"case": case, "watch": True,
+            "ref": {"rc": ref.returncode, "error": ref.error, "commits": len(ref.commit_points),
+                    "stages": len(ref.stage_points), "executed": ref.executed(),
+                    "startup_commits": startup_commits(ref), "removals": 0,
+                    "watch_points": None if full["points"] is None else len(full["points"]),
+                    "watch_error": full["error"],
+                    "sites": sorted({s for s, _ in (full["points"] or [])})},
             "results": results}
 
 
